@@ -110,10 +110,13 @@ func vpC19Pairs(k int) NaturalLanguageValues {
 		for _, e := range n {
 			vpAssume(e.Ref != t)
 		}
-		n = append(n, LangRefValue{Ref: t, Value: Content{vpRange('0', '2')}})
+		// texts from an alphabet with a case pair: texts differing only in letter case are different texts
+		n = append(n, LangRefValue{Ref: t, Value: Content{vpC19Texts[vpRange(0, 2)]}})
 	}
 	return n
 }
+
+var vpC19Texts = [3]byte{'a', 'A', 'b'}
 
 func vpC19SameSet(a, b NaturalLanguageValues) bool {
 	if len(a) != len(b) {
